@@ -22,7 +22,7 @@ def _load_registry():
 
 
 def _worker(task):
-    modname, item_name, repo, timeout_ms, findings_keys = task
+    modname, item_name, repo, timeout_ms, findings_keys, recheck = task
     t0 = time.time()
     out = {"item": item_name, "module": modname, "obligations": [], "paths": 0, "unsupported": [],
            "side_unknown": [], "solver_time": 0.0, "solver_calls": 0, "covered": [], "error": None,
@@ -45,7 +45,7 @@ def _worker(task):
         if isinstance(item, Lemma):
             out["kind"] = "lemma"
             out["expect_sat"] = item.expect_sat
-            res = explore(prog, item.name, lemma_driver(prog, item), timeout_ms=tmo)
+            res = explore(prog, item.name, lemma_driver(prog, item), timeout_ms=tmo, recheck=recheck)
             out["target"] = item.pred
         else:
             from pyvc.cdef import Finding
@@ -53,7 +53,7 @@ def _worker(task):
                    for f in findings_keys
                    if f.get("when") and (f.get("obligation", "") == item.name or f.get("obligation", "").startswith(item.name + "."))]
             res = explore(prog, item.name, contract_driver(prog, item, findings=fnd), timeout_ms=tmo,
-                          max_paths=item.max_paths)
+                          max_paths=item.max_paths, recheck=recheck)
             out["target"] = item.target
             out["replayable"] = getattr(item, "replayable", True)
             out["excluded_findings"] = [f.fid for f in fnd]
@@ -186,7 +186,7 @@ def main(argv=None):
                 continue
             if args.only and args.only not in c.name:
                 continue
-            tasks.append((modname, c.name, repo, timeout_ms, kf_ids))
+            tasks.append((modname, c.name, repo, timeout_ms, kf_ids, 2 if tier == "thorough" else 0))
     if not tasks:
         print("checker fault: zero obligations registered for " + args.prop)
         return 3
@@ -206,7 +206,7 @@ def main(argv=None):
     faults, undecided, violations = [], [], []
     n_paths = 0
     solver_time = 0.0
-    by_backend = {"z3": 0, "cvc5": 0, "fold": 0}
+    by_backend = {"z3": 0, "cvc5": 0, "fold": 0, "z3+cvc5": 0}
     functions = []
     vacuity = {"checked": 0, "ok": 0}
     for r in results:
@@ -327,6 +327,18 @@ def main(argv=None):
             violations.append("standin:" + key)
             vio_lines.append("VIOLATION property=%s replay=%s" % (args.prop, os.path.relpath(rp, VERIF)))
 
+    # ---------------------------------------------------------------- thorough tier: engine-vs-CPython differential
+    differential = None
+    if tier == "thorough":
+        try:
+            p = subprocess.run([sys.executable, "-m", "pyvc.differential", args.prop, "--n", "4", "--repo", repo],
+                               capture_output=True, text=True, timeout=1800, cwd=VERIF)
+            differential = json.loads(p.stdout.strip().splitlines()[-1])
+            if differential.get("disagreements"):
+                faults.append("engine-vs-CPython differential: %d disagreements (VC generator unsound for that input)" % differential["disagreements"])
+        except Exception as e:  # noqa
+            differential = {"error": repr(e)}
+
     # ---------------------------------------------------------------- known findings: witnesses
     for f in kf:
         w = f.get("witness")
@@ -364,6 +376,7 @@ def main(argv=None):
             "vacuity_checks": vacuity,
             "undecided": undecided, "faults": faults, "violated_obligations": violations,
             "known_findings": [f.get("id") for f in kf],
+            "differential": differential,
             "bounded_standins": entry.get("bounded_standins", []),
             "bounded_standin_runs": [{"name": r.get("name"), "bound": r.get("bound"), "evaluations": r.get("evaluations"),
                                       "failures": len(r.get("failures") or [])} for r in standin_results],
